@@ -221,15 +221,16 @@ func runC18(c *Ctx) {
 						if al, ok := ca.X.(*ssa.Alloc); ok {
 							for fld, vals := range FieldStores(tc, al) {
 								if fld == "CertKeyGetter" && len(vals) == 1 {
-									if gc, ok := strip(vals[0]).(*ssa.MakeClosure); ok {
+									if gc, ok := w.canon(tc, vals[0]).(*ssa.MakeClosure); ok {
 										installed = gc.Fn.(*ssa.Function)
 									}
 								}
 							}
 						}
 					}
-					for _, a := range tc.AnonFuncs {
-						if a != installed {
+					w.Focus(tc)
+					for _, a := range []*ssa.Function{installed} {
+						if a == nil {
 							continue
 						}
 						var reads []string
@@ -262,7 +263,8 @@ func runC18(c *Ctx) {
 	}
 	c.Saw(ns)
 	var tcall *ssa.Call
-	for _, call := range callsIn(ns) {
+	w.Focus(ns)
+	for _, call := range w.callsInDeep(ns) {
 		if cv, ok := call.(*ssa.Call); ok && cv.Call.StaticCallee() == tc {
 			tcall = cv
 		}
@@ -283,9 +285,12 @@ func runC18(c *Ctx) {
 	// credentials.NewTLS(cfg) -> WithTransportCredentials -> element of the dial options stored in the signer
 	okCreds := false
 	var credOpt *ssa.Call
-	for _, call := range callsTo(ns, "google.golang.org/grpc.WithTransportCredentials") {
-		cv := call.(*ssa.Call)
-		if nt, ok := strip(cv.Call.Args[0]).(*ssa.Call); ok && calleeName(nt) == "google.golang.org/grpc/credentials.NewTLS" && nt.Call.Args[0] == extractOf(tcall, 0) {
+	for _, call := range w.callsToDeep(ns, "google.golang.org/grpc.WithTransportCredentials") {
+		cv, isCall := call.(*ssa.Call)
+		if !isCall {
+			continue
+		}
+		if nt, ok := w.canon(ns, cv.Call.Args[0]).(*ssa.Call); ok && calleeName(nt) == "google.golang.org/grpc/credentials.NewTLS" && w.SameValue(ns, nt.Call.Args[0], extractOf(tcall, 0)) {
 			isNil, known := f.KnownNil(cv.Block(), extractOf(tcall, 1))
 			if known && isNil {
 				okCreds = true
@@ -297,7 +302,13 @@ func runC18(c *Ctx) {
 	okStored := false
 	if credOpt != nil {
 		// stored into the options array whose slice is stored into the signer's dialOptions field
-		for _, b := range ns.Blocks {
+		var nsBlocks []*ssa.BasicBlock
+		for _, tf := range w.Tree(ns) {
+			if tf == ns || w.transparent(tf) {
+				nsBlocks = append(nsBlocks, tf.Blocks...)
+			}
+		}
+		for _, b := range nsBlocks {
 			for _, ins := range b.Instrs {
 				st, ok := ins.(*ssa.Store)
 				if !ok {
@@ -307,7 +318,7 @@ func runC18(c *Ctx) {
 				if !ok || !strings.Contains(fieldName(fa.X.Type(), fa.Field), "ialOptions") {
 					continue
 				}
-				if sl, ok := st.Val.(*ssa.Slice); ok {
+				if sl, ok := w.canon(ns, st.Val).(*ssa.Slice); ok {
 					if arr, ok := sl.X.(*ssa.Alloc); ok {
 						for _, v := range storesInto(arr) {
 							if strip(v) == ssa.Value(credOpt) {
